@@ -149,7 +149,8 @@ def run(repo: Repo, chk: Check) -> None:
         "O1 writer table = reader table for GetKey, KDFParameters, FFCDHParameters, FFCDHKey, ECDHKey, GroupKeyEnvelope, "
         "KeyIdentifier (field order, widths, byte order, signedness, length prefixes naming the field they delimit, UTF-16 "
         "terminator convention, NDR64 padding), symbolically in all field values and lengths; O2 writer tables = reference tables "
-        "transcribed from MS-GKDI / NDR64, and the GetKey reply offsets; O3 exactly the reply's own auth padding is cut before decoding."
+        "transcribed from MS-GKDI / NDR64, the GetKey reply offsets, and no raising path of the reply decoder is reachable by a well-formed "
+        "successful reply (path conditions evaluated for every envelope length 0..255: total 28 + n + (-n mod 4), HRESULT 0); O3 exactly the reply's own auth padding is cut before decoding."
     )
     chk.scope_not = "the semantics of int.to_bytes/from_bytes, bytes.join and the utf-16-le codec (trusted base); values of keys."
     chk.trusted = ["Python int.to_bytes/int.from_bytes/slicing/bytes.join semantics", "reference tables in rules/c11.py transcribed from MS-GKDI 2.2.1-2.2.4, 3.1.4.1"]
